@@ -6,7 +6,7 @@ from hypothesis import strategies as st
 
 from ..core import Clause, call, require
 from ..oracles import banks_ref as R
-from ..strategies import threshold_configs, with_config, bank_specs, floats
+from ..strategies import tame_threshold_case, threshold_configs, with_config, bank_specs, floats
 from .c05 import _thr, apply_warmup, bank_labels, build_or_discard, narrowed_specs, warmups
 
 PROPERTY = "C06"
@@ -173,7 +173,7 @@ def _cases():
         "bins": st.one_of(floats(0.25, 2.0), floats(0.25, 12.0)),
         "warmup": warmups(),
         "config": threshold_configs(),
-    })
+    }).map(tame_threshold_case)
 
 
 def clauses(tier):
